@@ -61,6 +61,15 @@ def units(rng, tier):
         p = {"keep": True, "d": rng.choice([1, 1, 2, 3, len(vals), 2 ** 60])}
         p.update(gen.with_format(rng, vals, rng.choice(["list", "dict_str"])))
         bases.append(("cbldm_clock", p, "cbldm/" + fam))
+    # ---- complete greedy on MORE THAN 256 ITEMS whose first leaf (the LPT partition) is perfect, so that the unlimited search ends right after
+    # reaching depth numitems: limits around that point (an identity test on integers, a recursion or cache limit, ... only shows beyond 256)
+    for _ in range(6 if tier == "quick" else 40):
+        k = rng.choice([2, 2, 3])
+        m = rng.randint(257 // k + 1, 330 // k)
+        vals = [x for _ in range(m) for x in [rng.randint(1, 9)] * k]
+        rng.shuffle(vals)
+        p = {"vals": vals, "fmt": "list", "keep": rng.random() < 0.7, "k": k, "objective": rng.choice([[0, 0], [1, 0], [2, 0]]), "flags": [1, 1, 0, 1]}
+        bases.append(("cg_clock", p, "cg/long-perfect-first-leaf"))
     # natural length of each search, from the model run without limit
     reqs = []
     for kind, p, fam in bases:
@@ -72,7 +81,7 @@ def units(rng, tier):
         r = r["ok"] if isinstance(r, dict) and "ok" in r else r
         T = r[1] if isinstance(r, list) else 0
         gid = UN.short(json.dumps([kind, p], sort_keys=True), 10 ** 6)
-        for n in [-1] + limits_for(rng, T):
+        for n in [-1] + (limits_for(rng, T) if fam != "cg/long-perfect-first-leaf" else [x for x in (0, 1, len(p["vals"]) - 1, T - 3, T - 2, T - 1, T, T + 1, T + 7) if x >= 0]):
             q = dict(p)
             q["limit"] = n
             u = U(kind, q, fam)
